@@ -22,6 +22,9 @@ checks = (a.checks or prop).split(",")
 meta_path = os.path.join(d, "meta.json")
 meta = json.load(open(meta_path)) if os.path.exists(meta_path) else {"property": prop}
 PY = "/venv/bin/python"
+if meta.get("superseded_by_fix"):
+    print(name, "SUPERSEDED by fix", meta["superseded_by_fix"], "- no longer breaks the property on the repaired tree; skipped")
+    sys.exit(0)
 
 
 def copy_repo():
